@@ -12,6 +12,10 @@
 //        xss_drv eng  <level> 0 <shard> <nshards> <rid>...             engine rule sets (rid >= 2000): values that are one
 //                     forbidden character away from the language of an expression with nested quantifiers (lengths 48, 200,
 //                     2000) or that carry invalid UTF-8 under a regex::utf8 expression; level 0 = quick subset
+//        xss_drv u8   0 0 <shard> <nshards> <rid>...                    ill-formed UTF-8 family (overlong 2/3/4-byte forms at their
+//                     boundaries, surrogates, > U+10FFFF, F5..FF leads, truncated sequences, lone continuations, all second
+//                     bytes after E0 / ED / F0 / F4) and the well-formed boundary neighbours, in text position, inside <b>,
+//                     inside an attribute value, at the end of the input and before '<'
 //        xss_drv enc  <pairstep> <ctx> <shard> <nshards>                every charset name the code can be configured with
 //                     x every byte 00..FF embedded in harmless text (ctx 1: also inside <b>..</b>); multi-byte charsets:
 //                     every <pairstep>-th pair (lead >= 0x80, any second byte); expected bits from iconv(3)
@@ -745,6 +749,34 @@ int main(int argc,char **argv)
 				emit(rs,in[k].first);
 			}
 			inlang_flag=-1;
+		}
+		tr.close(); return 0;
+	}
+	if(mode=="u8") {
+		if(argc<7) { std::cerr<<"u8 0 0 <shard> <nshards> <rid>..."<<std::endl; return 2; }
+		int shard=atoi(argv[4]),nshards=atoi(argv[5]);
+		std::vector<std::string> fam;
+		#define U(x) fam.push_back(std::string(x,sizeof(x)-1))
+		U("\xc0\x80"); U("\xc1\xbf"); U("\xe0\x80\x80"); U("\xe0\x9f\xbf"); U("\xf0\x80\x80\x80"); U("\xf0\x81\x80\x80"); U("\xf0\x8f\xbf\xbf");
+		U("\xed\xa0\x80"); U("\xed\xbf\xbf"); U("\xf4\x90\x80\x80"); U("\xf5\x80\x80\x80"); U("\xf7\xbf\xbf\xbf"); U("\xf8\x88\x80\x80\x80");
+		U("\xfc\x84\x80\x80\x80\x80"); U("\xfe"); U("\xff"); U("\x80"); U("\xbf"); U("\x80\x80");
+		U("\xc2"); U("\xdf"); U("\xe0"); U("\xe0\xa0"); U("\xe2\x82"); U("\xef\xbf"); U("\xf0"); U("\xf0\x90"); U("\xf0\x90\x80"); U("\xf4\x8f"); U("\xf4\x8f\xbf");
+		// well-formed neighbours (C2 80 / C2 9F are C1 controls: well-formed but not allowed in HTML)
+		U("\xc2\x80"); U("\xc2\x9f"); U("\xc2\xa0"); U("\xdf\xbf"); U("\xe0\xa0\x80"); U("\xed\x9f\xbf"); U("\xee\x80\x80"); U("\xef\xbf\xbd"); U("\xef\xbf\xbf");
+		U("\xf0\x90\x80\x80"); U("\xf4\x8f\xbf\xbf"); U("\xd7\xa9"); U("\xe2\x82\xac"); U("\xf0\x9f\x98\x80");
+		#undef U
+		for(int x=0x80;x<0xc0;x++) {          // every second byte after the leads whose second byte is restricted
+			fam.push_back(std::string("\xe0")+char(x)+"\x80"); fam.push_back(std::string("\xed")+char(x)+"\x80");
+			fam.push_back(std::string("\xf0")+char(x)+"\xbf\xbf"); fam.push_back(std::string("\xf4")+char(x)+"\x80\x80");
+		}
+		long count=0;
+		for(int i=6;i<argc;i++) {
+			ruleset rs=make_rules(atoi(argv[i]));
+			for(size_t k=0;k<fam.size();k++) {
+				std::string const &u=fam[k];
+				std::string ctx[5]={ "x"+u+"y", "<b>x"+u+"y</b>", "<b t=\""+u+"\"/>", "x"+u, "x"+u+"<b>y</b>" };
+				for(int c=0;c<5;c++) if(count++%nshards==shard) emit(rs,ctx[c]);
+			}
 		}
 		tr.close(); return 0;
 	}
